@@ -13,6 +13,7 @@ extern var Tok;
 #define TOK_T(v) $(Tok, 0, (v), NULL)
 
 long tok_live(void);
+void tok_forgive(long n);
 long tok_issued(void);
 long tok_retired(void);
 int  tok_state(int64_t id);          /* 0 never issued, 1 live, 2 retired */
